@@ -88,6 +88,14 @@ func (s *Server) manifestDelete(repoStr, arg string) http.HandlerFunc {
 				s.log.Info("failed to delete entry from referrers response", "repo", repoStr, "arg", arg, "err", err)
 			}
 		}
+		// children of a deleted index that are only tracked through that index are listed again as untagged manifests,
+		// deleting the index does not delete the manifests it lists
+		if !types.RefTagRE.MatchString(arg) && types.MediaTypeIndex(desc.MediaType) {
+			err = s.manifestRelistChildren(repo, index, desc)
+			if err != nil {
+				s.log.Info("failed to list child manifests of a deleted index", "repo", repoStr, "arg", arg, "err", err)
+			}
+		}
 		// delete the digest or tag
 		err = repo.IndexRemove(desc)
 		if err != nil {
@@ -432,6 +440,36 @@ func (s *Server) manifestPut(repoStr, arg string) http.HandlerFunc {
 		w.Header().Add(types.HeaderDockerDigest, d.String())
 		w.WriteHeader(http.StatusCreated)
 	}
+}
+
+// manifestRelistChildren adds the child manifests of an index as untagged entries to the repository index.
+// Child manifests are otherwise only tracked through the index that lists them and would be lost with it.
+func (s *Server) manifestRelistChildren(repo store.Repo, index types.Index, desc types.Descriptor) error {
+	rdr, err := repo.BlobGet(desc.Digest)
+	if err != nil {
+		return err
+	}
+	raw, err := io.ReadAll(rdr)
+	_ = rdr.Close()
+	if err != nil {
+		return err
+	}
+	m := types.Index{}
+	err = json.Unmarshal(raw, &m)
+	if err != nil {
+		return err
+	}
+	for _, child := range m.Manifests {
+		cur, err := index.GetDesc(child.Digest.String())
+		if err != nil {
+			continue
+		}
+		err = repo.IndexInsert(cur)
+		if err != nil {
+			return err
+		}
+	}
+	return nil
 }
 
 func (s *Server) manifestVerifyImage(repo store.Repo, m types.Manifest) []types.ErrorInfo {
